@@ -30,7 +30,10 @@ from harness import c02
 
 ID = 'C08'
 STEPS = ['reg_f', 'reg_f_again', 'reg_g', 'ovr_min', 'ovr_not', 'ovr_plus', 'ovr_inc', 'reg_hi', 'probe']
-PROBES = [('f', 'f ( 1 )'), ('g', 'g ( 1 )'), ('min', 'min ( 1 , 2 )'), ('!', '! true'), ('+', '1 + 2'), ('++', '3 ++'), ('hi', '1 + 2 hi 3')]
+PROBES = [('f', 'f ( 1 )'), ('g', 'g ( 1 )'), ('min', 'min ( 1 , 2 )'), ('!', '! true'), ('+', '1 + 2'), ('++', '3 ++'), ('hi', '1 + 2 hi 3'),
+          # the same operators over other operand shapes (dispatch must not depend on what the operand is)
+          ('not', 'not true'), ('not-bin', 'not ( 1 == 1 )'), ('not-in', '2 not in [ 1 , 2 ]'), ('!-bin', '! ( 1 == 2 )'),
+          ('++-bin', '( 1 - 2 ) ++'), ('+-shapes', '[ 1 ] + max ( 1 )')]
 
 
 def tag_value(tag):
@@ -56,6 +59,7 @@ def do_step(it, step, idx, state):
         state['min'] = tag
     elif step == 'ovr_not':
         it.call('register_prefix_op', [mkstr('!'), H])
+        it.call('register_prefix_op', [mkstr('not'), H])
         state['!'] = tag
     elif step == 'ovr_plus':
         it.call('register_infix_op', [mkstr('+'), 110, Enum('InfixOpType', 0, 'CALC'), Enum('InfixOpAssociativity', 0, 'LEFT'), H])
@@ -81,6 +85,14 @@ def expected_probe(name, state, ctxkind):
         return ('str', state['min']) if 'min' in state else ('num', 1)
     if name == '!':
         return ('str', state['!']) if '!' in state else ('bool', False)
+    if name in ('not', 'not-bin', 'not-in'):
+        return ('str', state['!']) if '!' in state else ('bool', False)
+    if name == '!-bin':
+        return ('str', state['!']) if '!' in state else ('bool', True)
+    if name == '++-bin':
+        return ('str', state['++']) if '++' in state else ('num', 0)
+    if name == '+-shapes':
+        return ('str', state['+']) if '+' in state else ('err',)
     if name == '+':
         return ('str', state['+']) if '+' in state else ('num', 3)
     if name == '++':
@@ -184,6 +196,8 @@ def scenario_hist(seq, probe_name, ctxkind):
             steps += probe(i)
         elif st in names:
             steps.append({'op': names[st][0], 'name': names[st][1].encode().hex(), 'handler': hs})
+            if st == 'ovr_not':
+                steps.append({'op': names[st][0], 'name': b'not'.hex(), 'handler': hs})
         elif st == 'ovr_plus':
             steps.append({'op': 'register_infix', 'name': b'+'.hex(), 'prec': 110, 'type': 'CALC', 'assoc': 'LEFT', 'handler': hs})
         elif st == 'reg_hi':
